@@ -74,7 +74,7 @@ def eval_task(task):
     impl_plan = dict(plan)
     impl_plan["budget"] = 3000
     r = putcheck.evaluate(world, driver(), plan=impl_plan, model_faults=faults if modelled else None,
-                          oracles=("C01", "C16", "C04"), want_states=False)   # C04: what was in the trash before is still whole
+                          oracles=("C01", "C16", "C04", "C03w"), want_states=False)   # C04: what was in the trash before is still whole; C03w: whatever candidate takes over, the info it writes is the one the spec wants there
     delivered = any(rec[2] not in ("ok",) for rec in r["trace"]) or bool(plan.get("read_faults"))
     out = {"key": (tuple(world["args"]), len(world["nodes"]), json.dumps(plan, sort_keys=True)),
            "tags": ["where:" + world["meta"][0]["where"], "kind:" + world["meta"][0]["kind"]] +
@@ -102,10 +102,10 @@ def eval_task(task):
 
 
 def base_task(task):
-    # every kind of first candidate and, with each of them, -f (which silences nonexistent arguments only) within any 15 worlds
+    # every kind of first candidate and, with each of them, -f (which silences nonexistent arguments only) within any 18 worlds
     i = task["i"] + task["seed"]
     world = gen_fault_world(task_rng("C17", task["seed"], task["i"]),
-                            where=["home", "top", "alt", "alt-after-insecure-top", "custom"][i % 5], force=(i % 3 == 1))
+                            where=["home", "top", "alt", "alt-after-insecure-top", "custom", "fallback"][i % 6], force=(i % 3 == 1))
     obs = run_world(world, {"log_reads": True})
     # second level: the calls issued once the rename was refused (shutil.move's copy + delete fallback)
     obs2 = run_world(world, {"faults": [{"op": "rename", "nth": 0, "errno": "EXDEV"}]})
